@@ -2,6 +2,8 @@
 """tools/mutwt.py <check ids,comma> <file under the repo> <old> <new> [tier] — like mut.py, but the one-spot mutation is
 applied on a scratch worktree (VERIF_REPO), never in /repo: safe while other runs build from /repo."""
 import subprocess, sys, os, signal, tempfile
+import os as _os
+VERIF_HOME = _os.environ.get("VERIF_HOME") or _os.path.dirname(_os.path.dirname(_os.path.abspath(__file__)))
 ids, path, old, new = sys.argv[1], sys.argv[2], sys.argv[3], sys.argv[4]
 tier = sys.argv[5] if len(sys.argv) > 5 else "quick"
 env = dict(os.environ, GOFLAGS="-mod=mod", GOPROXY="off", GOSUMDB="off", GOTOOLCHAIN="local")
@@ -19,7 +21,7 @@ try:
         print("MUTANT DOES NOT BUILD"); sys.exit(2)
     for i in ids.split(","):
         ev = dict(env, VERIF_REPO=wt, VERIF_EVIDENCE_DIR=wt + "-ev", VERIF_REPLAY_DIR=wt + "-rp")
-        pr = subprocess.Popen(["/verif/check", i, tier], env=ev, stdout=subprocess.PIPE, text=True, start_new_session=True)
+        pr = subprocess.Popen([VERIF_HOME + "/check", i, tier], env=ev, stdout=subprocess.PIPE, text=True, start_new_session=True)
         try:
             so, _ = pr.communicate(timeout=int(os.environ.get("MUT_TIMEOUT", "600")))
         except subprocess.TimeoutExpired:
